@@ -32,10 +32,10 @@ theorem pepNumber_range (t : Bytes) : (0 : Int) ≤ (pepNumber t).1 ∧ (pepNumb
     generalize (List.take (numericPrefixLen (allowSeparator t)) (allowSeparator t)) = ds
     have hle : parseUint63Lossy ds ≤ 2 ^ 63 - 1 := by
       unfold parseUint63Lossy
+      simp only
       split
       · omega
-      · simp only
-        split <;> omega
+      · split <;> omega
     have hlt : parseUint63Lossy ds < 2 ^ 63 := by omega
     simp only [wrapInt64, hlt, ↓reduceIte]
     constructor
